@@ -23,8 +23,12 @@ def run_box(ck, res, n_cases, goals, n_interval, torch, C, diff, r, dist):
         nets = [Probe(2, r, nterms=2) for _ in range(2 if unit else 1)]
         k = r.randrange(2) if unit else None
         net = make_net(nets)
-        cond = C.DirichletBVP2D(x_min=x0, x_min_val=lambda y: Gp.torch(x0 + 0 * y, y), x_max=x1, x_max_val=lambda y: Gp.torch(x1 + 0 * y, y),
-                                y_min=y0, y_min_val=lambda x: Gp.torch(x, y0 + 0 * x), y_max=y1, y_max_val=lambda x: Gp.torch(x, y1 + 0 * x))
+        if ci % 3 == 1:     # documented positional order (x_min, x_min_val, x_max, x_max_val, y_min, y_min_val, y_max, y_max_val)
+            cond = C.DirichletBVP2D(x0, (lambda y: Gp.torch(x0 + 0 * y, y)), x1, (lambda y: Gp.torch(x1 + 0 * y, y)),
+                                    y0, (lambda x: Gp.torch(x, y0 + 0 * x)), y1, (lambda x: Gp.torch(x, y1 + 0 * x)))
+        else:
+            cond = C.DirichletBVP2D(x_min=x0, x_min_val=lambda y: Gp.torch(x0 + 0 * y, y), x_max=x1, x_max_val=lambda y: Gp.torch(x1 + 0 * y, y),
+                                    y_min=y0, y_min_val=lambda x: Gp.torch(x, y0 + 0 * x), y_max=y1, y_max_val=lambda x: Gp.torch(x, y1 + 0 * x))
         if unit:
             cond.ith_unit = k
         ne = 6
@@ -79,7 +83,15 @@ def run_ibvp(ck, res, n_cases, goals, n_interval, torch, C, diff, r, dist):
         der = lambda xe: jt(1, xe)
         kw = {'dd': dict(x_min_val=val(xmin), x_max_val=val(xmax)), 'dn': dict(x_min_val=val(xmin), x_max_prime=der(xmax)),
               'nd': dict(x_min_prime=der(xmin), x_max_val=val(xmax)), 'nn': dict(x_min_prime=der(xmin), x_max_prime=der(xmax))}[mode]
-        cond = C.IBVP1D(x_min=xmin, x_max=xmax, t_min=tmin, t_min_val=lambda x: Gp.torch(x, tmin + 0 * x), **kw)
+        if ci % 3 == 1:
+            # the documented positional order (x_min, x_max, t_min, t_min_val, x_min_val, x_min_prime, x_max_val, x_max_prime)
+            order = ['x_min_val', 'x_min_prime', 'x_max_val', 'x_max_prime']
+            tail = [kw.get(nm) for nm in order]
+            while tail and tail[-1] is None:
+                tail.pop()
+            cond = C.IBVP1D(xmin, xmax, tmin, (lambda x: Gp.torch(x, tmin + 0 * x)), *tail)
+        else:
+            cond = C.IBVP1D(x_min=xmin, x_max=xmax, t_min=tmin, t_min_val=lambda x: Gp.torch(x, tmin + 0 * x), **kw)
         if unit:
             cond.ith_unit = k
         xs_in = [xmin + (xmax - xmin) * j / 6 for j in range(1, 6)]
